@@ -702,36 +702,55 @@ class C13(core.Property):
         "on every run, over the whole history of each cell, not just consecutive reports",
     ]
     hypotheses = [
-        "Timely delta: at every action no message in flight is older than delta, and no partition is active (no_false_death)",
-        "BlockedRun a b: is_partitioned(a, b) before every action of the run (partition_isolates)",
-        "2*delta < half + susp (no_false_death)",
-        "tail antitone, nlog antitone on positives and non-negative on the range of tail, 0 < sd (phi_monotone)",
-        "phi_reaches_level / phi_silence_detected: PhiHyp as for phi_monotone; a heartbeat has been recorded (at any time, "
-        "0 included) and the window is not empty; mean <= m and sd <= max(m, min_std) with m a bound on every recorded interval; "
-        "threshold not above the level at standardised distance 39 (judge: threshold <= 300)",
-        "QuietRun a x: nothing from x and no 'alive' update about x is delivered to a (failure_detected_*_partial)",
-        "c.fix = true, i.e. the repaired _handle_indirect_ping (failure_detected_partial, no_delegate_detected, "
-        "unacked_probe_dead_after_suspicion, lone_observer_detects)",
+        # --- schedule hypotheses (about the action list; decidable; what the engine provides) ---
+        "monoRun: action times do not decrease (failure_detected_*, crash_yields_quiet_run). Not derived inside C13: the "
+        "model is a transition system over an action list whose order is an input (the recorded delivery order of the real "
+        "engine); that the engine delivers in time order is C01's theorem about its own heap model, and composing the two would "
+        "need the membership handlers embedded as entities of the C01 engine model plus a refinement proof (not done)",
+        "timelyRun delta: at every action no message in flight is older than delta, and no partition is active "
+        "(no_false_death, failure_detected_*). Necessary: clause 1 is false with slow links (corpus, seeded change r1-m1); "
+        "the judge measures delta on every trace and applies clauses 1 and 2 only when 2*delta < half + susp",
+        "punctualRun a (failure_detected_full / _within_crashes / _row): (i) dueOk — no probe tick and no armed timer of the "
+        "*observer* a is skipped; (ii) shufOk — a probe tick of a that starts a new pass is handed a permutation (any) of the "
+        "list it shuffles. Nothing is assumed about other nodes. (i) is exactly what the correspondence driver checks on every "
+        "replayed schedule of the real engine (theorem overdue_nil_dueOk: no `overdue` line ⇒ dueOk for every live node; an "
+        "`overdue` or `badshuf` line is a model/implementation disagreement), so it is validated on every run, not proved from "
+        "C01 (same reason as monoRun). The phi-path theorem failure_detected_by_phi needs only tickDueRun (the observer's probe "
+        "ticks are not skipped; implied by punctualRun: tickDueRun_of_punctual), no timer and no shuffle hypothesis",
+        "orderOk: the initial probe order of the observer is a permutation (any) of the other members; observer started by "
+        "cx + delta (failure_detected_full, _within_crashes, _row)",
+        "BlockedRun a b: is_partitioned(a, b) before every action of the run (partition_isolates) — the premise of the clause",
+        # --- numeric side conditions ---
+        "2*delta < half + susp (no_false_death; failure_detected_within_crashes / _row, where it makes 'DEAD implies crashed' "
+        "available so that the bound counts crashes; failure_detected_full does NOT need it and uses k = n)",
+        "half < interval (failure_detected_full family): the ack timeout fires before the next probe tick — true of the code "
+        "(half = probe_interval * 0.5)",
+        # --- code variant ---
+        "c.fix = true, i.e. the repaired _handle_indirect_ping (failure_detected_partial, failure_detected_full family, "
+        "no_delegate_detected, unacked_probe_dead_after_suspicion, lone_observer_detects). Necessary for the probe path: "
+        "current_unacked_probe_keeps_alive is the witness for the pinned code. NOT needed for the phi path: "
+        "failure_detected_by_phi holds for both variants",
+        # --- function parameters of the exact phi model (erfc / log10 / mean / std are parameters; floats are validated by X) ---
+        "PhiHyp: tail antitone, nlog antitone on positives and non-negative on the range of tail, 0 < sd (phi_monotone, "
+        "phi_inf_absorbing, phi_reaches_level, phi_silence_detected, failure_detected_by_phi)",
+        "MeanSdBound m min_std: on a non-empty window with entries <= m, mean <= m and clamped deviation <= max(m, min_std); "
+        "threshold <= level at standardised distance Y (judge: Y = 39, threshold <= 300) (phi_reaches_level, "
+        "phi_silence_detected, failure_detected_by_phi)",
+        "failure_detected_by_phi, on the state at the crash: the observer's detector for x has recorded a heartbeat l0 <= cx, "
+        "its window is non-empty with entries <= m, and cx + delta <= l0 + m (m also covers the time since the last heartbeat); "
+        "max_sample_size >= 1. An observer that never heard from x has no phi path (phi = 0: 'insufficient data') — that case "
+        "is failure_detected_full's",
+        # --- discharged in this round ---
+        "QuietRun a x (failure_detected_partial, failure_detected_by_phi_partial, no_delegate_detected, lone_observer_detects): "
+        "no longer a free hypothesis for runs with a crash — crash_yields_quiet_run + quiet_run_after_crash derive it after "
+        "cx + delta from monoRun + timelyRun; the 'avail = false' hypothesis of failure_detected_by_phi_partial is derived for "
+        "the concrete detector in failure_detected_by_phi (DetInv.unavailable via phi_reaches_level)",
         "indirect_probe_count = 0 or an empty shuffled candidate list (no_delegate_detected); n = 2 or every other "
-        "peer DEAD in the observer's view (no_delegate_candidates)",
-        "failure_detected_full / failure_detected_within_crashes / failure_detected_row (clause 2, full): c.fix = true "
-        "(repaired _handle_indirect_ping), half < interval (ack timeout shorter than the probe interval), the action list "
-        "is pre ++ crash x cx :: post, monoRun (action times do not decrease), timelyRun delta (nothing in flight older "
-        "than delta, no partition active), punctualRun a (no probe tick and no armed timer of the observer a is skipped: "
-        "an action at time t finds t <= nextTick and t <= fire; a probe tick of a that starts a new pass is handed a "
-        "permutation — any — of the list it shuffles), orderOk (the initial probe order of a is a permutation — any — of "
-        "the other members), the observer started by cx + delta, a is up at the end; for the bound in the number of "
-        "crashes additionally 2*delta < half + susp. No hypothesis on the detector (any Detector), on the other nodes' "
-        "schedules, on delegate choices, or on the crash time",
-        "Lone x: the observer's probe order is [x] and x is not DEAD; the oracle shuffle of a one-element list is that "
-        "list (lone_observer_detects); tick at most one interval after crash + delta (lone_observer_within_deadline)",
+        "peer DEAD in the observer's view (no_delegate_candidates); Lone x: the observer's probe order is [x] and x is not DEAD "
+        "(lone_observer_detects); tick at most one interval after crash + delta (lone_observer_within_deadline) — these are "
+        "the case distinctions of the special-case lemmas; failure_detected_full covers all of them without such premises",
     ]
-    partial_theorems = {
-        "HappyModel.C13.failure_detected_by_phi_partial":
-            "proved: a probe tick at which the detector kept for x is not available leaves x not-ALIVE, for the rest of "
-            "any quiet run (both code variants). 'phi exceeds the threshold after a bounded silence' is a hypothesis on "
-            "the Detector parameter (avail = false at that tick), not derived from erfc/log10",
-    }
+    partial_theorems = {}
 
     # ------------------------------------------------------------------ generation
     def generate(self, rng: random.Random, i: int, tier: str) -> dict:
@@ -1272,6 +1291,9 @@ THEOREMS = [
     "HappyModel.C13.phi_silence_detected",
     "HappyModel.C13.failure_detected_partial",
     "HappyModel.C13.failure_detected_by_phi_partial",
+    "HappyModel.C13.failure_detected_by_phi",
+    "HappyModel.C13.tickDueRun_of_punctual",
+    "HappyModel.C13.overdue_nil_dueOk",
     "HappyModel.C13.crash_yields_quiet_run",
     "HappyModel.C13.quiet_run_after_crash",
     "HappyModel.C13.round_robin_reaches",
